@@ -7,6 +7,7 @@ R07.4 the paint update decomposes every previous label into exactly one sub-edit
       new label into exactly one
 R07.5 a painted-over node is deleted only under the test that none of its pixels remain
 R07.6 pixels handed to a user action reach the primitive that needs them for undo
+R07.8 each sub-edit of the paint update records the pixel group of its own node (painted label: all groups)
 R07.7 get_pixels compares the node's own frame with the node id and prepends that time
 """
 
@@ -129,6 +130,7 @@ def run(P: Program, R: Report, tier: str) -> None:
         _, results = A.run(f)
         keep = lambda e: e.xdepth == 0 and e.kind == "construct"  # noqa: E731
         n_seq = 0
+        pair_seen: set = set()
         for pr in results:
             if pr.kind == "raise":
                 continue
@@ -158,7 +160,30 @@ def run(P: Program, R: Report, tier: str) -> None:
                                 str({k: v for k, v in per_new[0].args.items() if k in ("node", "pixels")}), via="dataflow")
                 elif conds.get("new_value == 0") is True:
                     R.check(len(per_new) == 0, "R07.4", f, f.loc, "erasing adds nothing", "", via="path-count")
+                # R07.8 each sub-edit records the pixel group that belongs to ITS node: a previous label its own group,
+                # the painted label the union of all groups (never one group of the change list)
+                import re as _re
+
+                for e in cons:
+                    px, nd = e.args.get("pixels"), e.args.get("node")
+                    if px in (None, "None") or nd is None:
+                        continue
+                    el_n = _re.fullmatch(r"\$(\w+)\[(\d+)\]\[1\]", nd)
+                    el_p = _re.fullmatch(r"\$(\w+)\[(\d+)\]\[0\]", px)
+                    key = (e.name, nd, px)
+                    if key in pair_seen:
+                        continue
+                    pair_seen.add(key)
+                    if el_n:
+                        R.check(bool(el_p) and el_p.groups() == el_n.groups(), "R07.8", f, e.where(),
+                                f"{e.name} for a previous label records that label's own pixel group",
+                                f"node {strip(nd)} is recorded with pixels {strip(px)}: undo restores the wrong pixels", via="interp-args")
+                    elif nd == "$new_value":
+                        R.check(not el_p, "R07.8", f, e.where(), f"{e.name} for the painted label records the union of all changed pixel groups",
+                                f"the painted label is recorded with the single group {strip(px)} (a loop variable left over from the scan of the "
+                                "change list): undo clears only that group and the array is not restored", via="interp-args")
         R.floor("R07.4", "paint-update sequences", n_seq, 6)
+        R.floor("R07.8", "(node, pixels) pairs recorded by the paint update", len(pair_seen), 3)
         # ---- R07.5 deletion guard
         for g in ast.walk(f.node):
             if isinstance(g, ast.If) and any(isinstance(x, ast.Call) and call_name(x) == "UserDeleteNode" for s in g.body for x in ast.walk(s)):
